@@ -24,6 +24,7 @@
    Not represented in [kust] (generators never emit them): helmCharts, helmGlobals,
    helmChartInflationGenerator (copyChartHome / copyDir / Walk). *)
 From KV Require Export Fs.LocPath.
+From KV Require Export Gen.LocalizeTables.
 
 (* ------------------------------------------------------------------ kustomization (path-bearing fields) *)
 
@@ -483,7 +484,8 @@ Section Localizer.
   Definition field_result (id : nat) (orig : list string) (done : list (nat * list string)) : list string :=
     match find_field_id id done with Some l => l | None => orig end.
 
-  Definition kust_names : list string := ["kustomization.yaml"; "kustomization.yml"; "Kustomization"].
+  (* konfig.RecognizedKustomizationFileNames(), regenerated from /repo on every run *)
+  Definition kust_names : list string := gen_kust_file_names.
 
   (* target.LoadKustFile: all three names are tried; errors (not exits) are swallowed *)
   Fixpoint load_kust_file (lc : lcst) (names : list string) (acc : list (string * content))
@@ -576,8 +578,8 @@ End Localizer.
 (* util.go defaultNewDir for a local target *)
 Definition default_new_dir (root : cpath) : string :=
   match root with
-  | [] => "localized"
-  | _ => "localized-" ++ base_c root
+  | [] => gen_dst_prefix
+  | _ => gen_dst_prefix ++ "-" ++ base_c root
   end.
 
 (* localizer.Run for a local target, part 1 — NewLoader: ConfirmDir(target), establishScope,
